@@ -123,6 +123,7 @@ Section Inst.
   | OVerify (a : ac) (r : N)
   | OScv (m : option (list (sc * bool))) (reject : bool) (g ng : list sc)
   | OAdd (c : sc) (g ng : list sc)
+  | OAddMany (cs : list sc) (g ng : list sc)
   | OCertify (from to a ki : N) (err : bool) (g ng : list sc)
   | OGac (res : option ac) (v : N) (g ng : list sc)
   | OCleanup (keep : list N) (g ng : list sc)
@@ -150,6 +151,9 @@ Section Inst.
     | OAdd c g ng =>
         let q := mkpool g ng in
         (code (pool_eqb (pool_add p c) g ng) true, q)
+    | OAddMany cs g ng =>
+        let q := mkpool g ng in
+        (code (pool_eqb (fold_left (fun x c => pool_add x c) cs p) g ng) true, q)
     | OCertify from to a ki err g ng =>
         let '(p', er) := certify (fun c => CSig [(ki, c)]) e p from to a in
         let q := mkpool g ng in
